@@ -136,6 +136,12 @@ def _case(spec):
             p = _variant(spec)
             cid = f"{spec['profile']}:{spec['seed']}:{spec['variant']}"
             cfg, schema_files = project_files(p)
+            # option-dependent printers (iso.ts runtime switch, commonjs requires, file extensions) get their share
+            cfg = json.loads(json.dumps(cfg))
+            if spec["seed"] % 2 == 0:
+                cfg.setdefault("options", {})["no_babel_transform"] = True
+            if spec["seed"] % 3 == 0:
+                cfg.setdefault("options", {})["module"] = "commonjs"
             for k in range(3):
                 root = f"{base}-{'abc'[k] * (k + 1)}"
                 write_shuffled(p.files, schema_files, cfg, root, rng)
